@@ -296,7 +296,7 @@ def simulate(z, plan, profile=None):
             v2.klass_str = v2.oracle
             viol = v2
     if viol is None and profile == "C14" and "/asan/" in z.exe \
-            and any(len(p["text"]) > 1500 for p in plan["progs"]):
+            and any(len(p["text"]) > 1500 for p in plan["progs"]) and not plan["knobs"].get("plain_only"):
         # Deep or long inputs: also on the production-like build with the
         # default 8 MiB stack (unbounded recursion overflows there first).
         r2 = z.run_plain(plan)
